@@ -1,2 +1,318 @@
-//! C02 workload (under construction).
-fn main() {}
+//! C02 — multiplication (wrapping/overflowing/checked/saturating, operators),
+//! widening product over a (BITS, BITS_RHS) grid, ring inverse, Product.
+
+use num_bigint::BigUint;
+use num_traits::One;
+use ruint::Uint;
+use vmon::{an, au, big, gen, uint, Arg, Mon};
+
+vmon::widths!(exec; 0, 1, 2, 3, 4, 7, 8, 16, 31, 32, 60, 63, 64, 65, 100, 127, 128, 129, 160, 192,
+    250, 255, 256, 257, 320, 384, 512, 521, 1024, 1088, 2048, 4096);
+
+const WGRID: &[usize] = &[0, 1, 7, 63, 64, 65, 128, 192, 256, 320];
+
+fn widening_go<const B: usize, const L: usize, const R: usize, const LR: usize, const S: usize, const LS: usize>(
+    m: &mut Mon,
+    a: &[u64],
+    b: &[u64],
+) {
+    let x: Uint<B, L> = uint(a);
+    let y: Uint<R, LR> = uint(b);
+    let p = big::big(a) * big::big(b);
+    let e = big::limbs(&p, LS);
+    m.obs(|| format!("product={}", big::hex(&e)));
+    if let Some(v) = m.must(|| x.widening_mul::<R, LR, S, LS>(y)) {
+        m.eq_uint("widening_mul", &v, &e);
+    }
+}
+
+macro_rules! widening_inner {
+    ($m:ident, $lb:ident, $rb:ident, $a:ident, $b:ident, $x:literal, [$($y:literal),*]) => {
+        if $lb == $x {
+            match $rb {
+                $($y => return widening_go::<$x, { ($x + 63) / 64 }, $y, { ($y + 63) / 64 }, { $x + $y }, { ($x + $y + 63) / 64 }>($m, $a, $b),)*
+                _ => {}
+            }
+        }
+    };
+}
+macro_rules! widening_cross {
+    ([$($x:literal),*], $ys:tt) => {
+        fn widening(m: &mut Mon, lb: usize, rb: usize, a: &[u64], b: &[u64]) {
+            $(widening_inner!(m, lb, rb, a, b, $x, $ys);)*
+            panic!("harness: widening grid has no entry ({lb},{rb})");
+        }
+    };
+}
+widening_cross!([0, 1, 7, 63, 64, 65, 128, 192, 256, 320], [0, 1, 7, 63, 64, 65, 128, 192, 256, 320]);
+
+fn exec<const B: usize, const L: usize>(m: &mut Mon, op: &str, a: &[Arg]) {
+    match op {
+        "mul" => {
+            let (x, y): (Uint<B, L>, Uint<B, L>) = (uint(a[0].u()), uint(a[1].u()));
+            let p = big::big(a[0].u()) * big::big(a[1].u());
+            let ovf = !big::fits(&p, B);
+            let w = big::wrap(&p, B);
+            m.nontrivial(!gen::is_zero(a[0].u()) && !gen::is_zero(a[1].u()));
+            m.obs(|| format!("wrapped={} overflow={}", big::hex(&w), ovf));
+            if let Some((v, f)) = m.must(|| x.overflowing_mul(y)) {
+                m.eq_uint("overflowing_mul.value", &v, &w);
+                m.eq("overflowing_mul.flag", &f, &ovf);
+            }
+            if let Some(v) = m.must(|| x.wrapping_mul(y)) {
+                m.eq_uint("wrapping_mul", &v, &w);
+            }
+            if let Some(v) = m.must(|| x.checked_mul(y)) {
+                match v {
+                    Some(v) => {
+                        m.eq("checked_mul.some", &true, &!ovf);
+                        m.eq_uint("checked_mul.value", &v, &w);
+                    }
+                    None => {
+                        m.eq("checked_mul.none", &true, &ovf);
+                    }
+                }
+            }
+            if let Some(v) = m.must(|| x.saturating_mul(y)) {
+                let e = if ovf { gen::max(B) } else { w.clone() };
+                m.eq_uint("saturating_mul", &v, &e);
+            }
+            if let Some(v) = m.must(|| x * y) {
+                m.eq_uint("op*.vv", &v, &w);
+            }
+            if let Some(v) = m.must(|| x * &y) {
+                m.eq_uint("op*.vr", &v, &w);
+            }
+            if let Some(v) = m.must(|| &x * y) {
+                m.eq_uint("op*.rv", &v, &w);
+            }
+            if let Some(v) = m.must(|| &x * &y) {
+                m.eq_uint("op*.rr", &v, &w);
+            }
+            if let Some(v) = m.must(|| {
+                let mut z = x;
+                z *= y;
+                z
+            }) {
+                m.eq_uint("op*=.v", &v, &w);
+            }
+            if let Some(v) = m.must(|| {
+                let mut z = x;
+                z *= &y;
+                z
+            }) {
+                m.eq_uint("op*=.r", &v, &w);
+            }
+        }
+        "inv_ring" => {
+            let x: Uint<B, L> = uint(a[0].u());
+            let bx = big::big(a[0].u());
+            let odd = B > 0 && a[0].u()[0] & 1 == 1;
+            m.nontrivial(bx > BigUint::one());
+            if let Some(r) = m.must(|| x.inv_ring()) {
+                match r {
+                    Some(v) => {
+                        m.canonical(&v);
+                        m.eq("inv_ring.some", &true, &odd);
+                        let prod = (bx * big::big(v.as_limbs())) % big::p2(B);
+                        m.check(prod.is_one(), "inv_ring.value", || "a*x = 1 mod 2^BITS".into(), || {
+                            format!("x={} a*x mod 2^BITS={}", big::hex(v.as_limbs()), big::bhex(&prod))
+                        });
+                        m.obs(|| format!("inverse={}", big::hex(v.as_limbs())));
+                    }
+                    None => {
+                        m.eq("inv_ring.none", &true, &!odd);
+                    }
+                }
+            }
+        }
+        "widening" => {
+            let rb = a[2].us();
+            m.nontrivial(!gen::is_zero(a[0].u()) && !gen::is_zero(a[1].u()));
+            widening(m, B, rb, a[0].u(), a[1].u());
+        }
+        "product" => {
+            let xs: Vec<Uint<B, L>> = a.iter().map(|x| uint(x.u())).collect();
+            let mut p = BigUint::one();
+            for x in a {
+                p = (p * big::big(x.u())) % big::p2(B);
+            }
+            let w = big::wrap(&p, B);
+            m.nontrivial(a.len() >= 2 && a.iter().all(|x| !gen::is_zero(x.u())));
+            m.obs(|| format!("product of {} factors = {}", a.len(), big::hex(&w)));
+            if let Some(v) = m.must(|| xs.iter().copied().product::<Uint<B, L>>()) {
+                m.eq_uint("product.values", &v, &w);
+            }
+            if let Some(v) = m.must(|| xs.iter().product::<Uint<B, L>>()) {
+                m.eq_uint("product.refs", &v, &w);
+            }
+        }
+        _ => panic!("harness: unknown op {op}"),
+    }
+}
+
+fn pair(m: &mut Mon, bits: usize, a: &[u64], b: &[u64]) {
+    m.case("mul", bits, vec![au(a), au(b)]);
+}
+
+/// Operands whose product is 2^bits +- small: a = ceil(2^bits / b) and neighbours.
+fn near_overflow(m: &mut Mon, bits: usize, b: &[u64]) {
+    let bb = big::big(b);
+    if big::is_zero(&bb) {
+        return;
+    }
+    let t = big::p2(bits);
+    let q = &t / &bb;
+    for d in 0..3u32 {
+        for cand in [&q + d, if q >= BigUint::from(d) { &q - d } else { q.clone() }] {
+            if big::fits(&cand, bits) {
+                let a = big::limbs(&cand, gen::nlimbs(bits));
+                pair(m, bits, &a, b);
+                pair(m, bits, b, &a);
+            }
+        }
+    }
+}
+
+fn workload(m: &mut Mon, bits: usize) {
+    if bits <= 4 {
+        for a in 0..(1u64 << bits) {
+            m.case("inv_ring", bits, vec![au(&gen::small(a, bits))]);
+            for b in 0..(1u64 << bits) {
+                if !m.keep() {
+                    continue;
+                }
+                pair(m, bits, &gen::small(a, bits), &gen::small(b, bits));
+            }
+        }
+        if !m.is_light() {
+            m.mark_exhaustive(format!("all operand pairs for mul and all values for inv_ring at BITS={bits}"));
+        }
+    }
+    let bd = gen::boundary(bits);
+    let mut r = m.stream("c02.directed", bits);
+    for a in &bd {
+        if !m.keep() {
+            continue;
+        }
+        m.case("inv_ring", bits, vec![au(a)]);
+        let mut partners = vec![a.clone(), gen::zero(bits), gen::max(bits)];
+        if bits > 0 {
+            partners.push(gen::small(1, bits));
+            partners.push(gen::small(2, bits));
+            partners.push(gen::pow2(bits - 1, bits));
+            partners.push(gen::pow2(bits / 2, bits));
+            partners.push(gen::ones((bits + 1) / 2, bits));
+            for _ in 0..6 {
+                partners.push(r.pick(&bd).clone());
+            }
+        }
+        for b in &partners {
+            pair(m, bits, a, b);
+            pair(m, bits, b, a);
+        }
+        if bits > 0 && bits <= 1088 {
+            near_overflow(m, bits, a);
+        }
+    }
+    // widening grid (the left width is this width)
+    if WGRID.contains(&bits) {
+        let mut r = m.stream("c02.widening", bits);
+        for &rb in WGRID {
+            let bda = gen::boundary(bits);
+            let bdb = gen::boundary(rb);
+            for a in bda.iter().take(40) {
+                for b in bdb.iter().take(12) {
+                    if !m.keep() {
+                        continue;
+                    }
+                    m.case("widening", bits, vec![au(a), au(b), an(rb)]);
+                }
+            }
+            m.case("widening", bits, vec![au(&gen::max(bits)), au(&gen::max(rb)), an(rb)]);
+            for _ in 0..m.iters(400) {
+                let a = gen::hostile(&mut r, bits);
+                let b = gen::hostile(&mut r, rb);
+                m.case("widening", bits, vec![au(&a), au(&b), an(rb)]);
+            }
+        }
+    }
+    if bits == 0 {
+        m.case("product", bits, vec![au(&[]), au(&[])]);
+        m.case("product", bits, vec![]);
+        return;
+    }
+    // Sparse operands aimed at addmul's zero trimming and short-window arms:
+    // a = x * 2^(64 i), b = y * 2^(64 j) for all limb offsets.
+    let n = gen::nlimbs(bits);
+    let mut r = m.stream("c02.sparse", bits);
+    for i in 0..n {
+        for j in 0..n {
+            if n > 16 && (i % 5 != 0 && i != n - 1) && (j % 5 != 0 && j != n - 1) {
+                continue;
+            }
+            if !m.keep() {
+                continue;
+            }
+            for _ in 0..2 {
+                let mut a = gen::zero(bits);
+                let mut b = gen::zero(bits);
+                a[i] = gen::alpha_limb(&mut r) | 1;
+                b[j] = gen::alpha_limb(&mut r) | 1;
+                if r.bool() && i + 1 < n {
+                    a[i + 1] = gen::alpha_limb(&mut r);
+                }
+                if r.bool() && j + 1 < n {
+                    b[j + 1] = gen::alpha_limb(&mut r);
+                }
+                pair(m, bits, &gen::canon(a, bits), &gen::canon(b, bits));
+            }
+        }
+    }
+    // Random hostile pairs.
+    let mut r = m.stream("c02.random", bits);
+    let iters = m.iters(if bits <= 256 { 6000 } else if bits <= 1024 { 2000 } else { 400 });
+    for i in 0..iters {
+        if i % 256 == 0 && m.time_up() {
+            break;
+        }
+        let a = gen::hostile(&mut r, bits);
+        let b = gen::hostile(&mut r, bits);
+        pair(m, bits, &a, &b);
+        if i % 8 == 0 && bits <= 1088 {
+            near_overflow(m, bits, &a);
+        }
+        if i % 4 == 0 {
+            let mut o = a.clone();
+            o[0] |= 1;
+            m.case("inv_ring", bits, vec![au(&o)]);
+            m.case("inv_ring", bits, vec![au(&b)]);
+        }
+        if i % 8 == 0 {
+            let k = r.range(0, 7);
+            let mut terms = vec![au(&a), au(&b)];
+            for _ in 0..k {
+                let mut t = gen::hostile(&mut r, bits);
+                if r.bool() {
+                    t[0] |= 1;
+                }
+                terms.push(au(&t));
+            }
+            terms.truncate(k.max(1));
+            m.case("product", bits, terms);
+        }
+    }
+}
+
+fn main() {
+    let mut m = Mon::new("C02", dispatch);
+    m.use_hooks = true;
+    if !m.replay_if_requested() {
+        for &bits in WIDTHS {
+            if m.width_enabled(bits) {
+                workload(&mut m, bits);
+            }
+        }
+    }
+    m.finish();
+}
